@@ -238,6 +238,7 @@ func (hs *serverHandshakeStateTLS13) processClientHello() error {
 			break
 		}
 	}
+	clientKeyShare = c.verifSiblingShare(hs.clientHello, selectedGroup, clientKeyShare)
 	if clientKeyShare == nil {
 		ks, err := hs.doHelloRetryRequest(selectedGroup)
 		if err != nil {
